@@ -30,7 +30,7 @@ prop("C04", opts={"memprop": "C04", "shadowprop": "C04"},
      nontrivial=[["notify_add>=3", "add_existing_path"], ["notify_add>=3", "change_not_owner"], ["notify_add>=3", "remove_not_owner"], ["notify_add>=3", "setcall_wrong_kind"], ["notify_add>=3", "set_on_fetchonly"]],
      required_probes=["add_existing_path", "change_not_owner", "remove_not_owner", "change_on_method", "setcall_wrong_kind", "set_on_fetchonly", "empty_path", "get"])
 
-prop("C05",
+prop("C05", also=["C07/hygiene/.*"],
      mix=[("c05", "default", 3), ("c05", "small", 1), ("c05", "batch1", 1), ("c11x", "wbuf", 1), ("c11x", "default", 0.5)],
      quick_mix=[("c05", "default", 2), ("c11x", "wbuf", 1)],
      quick_s=25, thorough_s=600, opts={"memprop": "C05"},
@@ -57,7 +57,7 @@ prop("C02", opts={"memprop": "C02"}, also=["C03/unexpected-response", "C03/missi
      nontrivial=[["ledger_response>=3"], ["batch_len>=3"]],
      required_probes=["ledger_response", "no_id_request", "response_as_request", "id_fraction", "id_beyond_int", "batch_len>=3", "routed_seen_by_owner"])
 
-prop("C06",
+prop("C06", also=["C07/hygiene/.*"],
      mix=[("c06", "default", 3), ("c06", "small", 2), ("c02", "default", 1), ("c06", "batch1", 1)],
      quick_mix=[("c06", "default", 2), ("c06", "small", 1)],
      quick_s=25, thorough_s=600,
@@ -110,7 +110,7 @@ prop("C13", also=["C05/connection-not-released", "C07/.*"],
      nontrivial=[["accepted:ws"]],
      required_probes=["http_error_status:400", "http_error_status:404", "truncated_send", "client_close:fin", "client_close:rst", "canary_ok", "idle_baseline_checked", "exit_checked"])
 
-prop("C12", also=["C10/.*"],
+prop("C12", also=["C10/.*", "C07/hygiene/.*"],
      mix=[("c12", "default", 3), ("c12", "small", 1.5), ("c12", "batch1", 0.5), ("c19", "default", 0.7), ("c19", "big", 0.3)],
      quick_mix=[("c12", "default", 2), ("c12", "small", 1), ("c19", "default", 0.5)],
      quick_s=25, thorough_s=600, opts={"memprop": "C12"},
@@ -145,7 +145,7 @@ prop("C10",
      nontrivial=[["fault:short_write", "c10_frame_offered_behind_pending"], ["fault:would_block", "flush_on_writable"]],
      required_probes=["fault:short_write", "fault:would_block", "fault:write_error", "flush_on_writable", "partial_in_prefix", "partial_in_payload", "partial_in_pending", "partial_in_ws_header", "buffer_overflow", "c10_frame_offered_behind_pending", "writable_again", "ws_header_16bit"])
 
-prop("C11",
+prop("C11", also=["C07/hygiene/.*"],
      mix=[("c11", "wbuf", 3), ("c11", "wsmall", 2), ("c11", "default", 1), ("c11", "batch1", 0.5), ("c11x", "wbuf", 1), ("c11x", "default", 1)],
      quick_mix=[("c11", "wbuf", 2), ("c11", "wsmall", 1), ("c11", "default", 0.5), ("c11x", "wbuf", 0.7)],
      quick_s=30, thorough_s=600, opts={"memprop": "C11"},
@@ -190,9 +190,9 @@ prop("C20", kind="c20", level="fault_enumeration",
      technique="deterministic simulation with fault injection: simulated file system with a durable view, crash-point and fault-outcome enumeration, fresh-daemon reload oracle, reference model for authorisation",
      nontrivial=[])
 
-prop("C19",
-     mix=[("c19", "default", 3), ("c19", "small", 1), ("c19", "batch1", 1), ("c19", "big", 1)],
-     quick_mix=[("c19", "default", 3), ("c19", "big", 1)],
+prop("C19", also=["C07/hygiene/.*"],
+     mix=[("c19", "default", 3), ("c19", "small", 1), ("c19", "batch1", 1), ("c19", "big", 1), ("c19+af", "default", 1.5)],
+     quick_mix=[("c19", "default", 3), ("c19", "big", 1), ("c19+af", "default", 1.5)],
      quick_s=30, thorough_s=600, opts={"memprop": "C19"},
      rule="two endpoints over the simulated transport: an independent client (system zlib raw deflate/inflate, own RFC 7692 negotiation checker) and the real websocket.c + compression.c + bundled zlib behind a small echo harness started with compression level 1-3 "
           "(the shipped main() never enables compression; main.c and linux_io.c are replaced by sim/c19_harness.c). Seeded: extension offers (any subset, order and spelling of the four parameters, legal and illegal values, several offers, none), "
